@@ -698,7 +698,7 @@ class Sym:
     def __ceil__(self):
         if self.is_const():
             return Sym(Poly.const(math.ceil(self.const_value())))
-        return Sym.var(-z3.ToReal(z3.ToInt(-self.t)))
+        return -Sym.var(z3.ToReal(z3.ToInt(-self.t)))
 
     def rint(self):
         if self.is_const():
@@ -745,6 +745,7 @@ def _to_fraction(o):
 
 
 INT_LO, INT_HI = -64, 64
+CHOICE_CACHE = {}  # (kind, decision prefix) -> value picked there; reset per harness instance
 
 
 def concretize_int(sym, trunc=False, lo=None, hi=None):
@@ -752,6 +753,11 @@ def concretize_int(sym, trunc=False, lo=None, hi=None):
     if isinstance(sym, Sym) and sym.is_const():
         fr = sym.const_value()
         return int(fr) if trunc else int(math.floor(fr))
+    if trunc and isinstance(sym, Sym) and CTX is not None and not _integer_valued(sym):
+        # truncating a genuinely real-valued symbol (a symbolic value pushed through an integer buffer or
+        # `int()`) would fork over every integer in range; none of the code paths the properties cover does
+        # this on symbolic data, so the path is stopped and the concrete replay decides what it means
+        raise Unsupported("truncation of a real-valued symbol to an integer")
     t = z3.simplify(sym.t if isinstance(sym, Sym) else sym)
     if z3.is_rational_value(t):
         fr = fractions.Fraction(t.numerator_as_long(), t.denominator_as_long())
@@ -769,20 +775,72 @@ def concretize_int(sym, trunc=False, lo=None, hi=None):
         r = resolve(sym)
         if not isinstance(r, Sym):
             return int(r) if trunc else int(math.floor(r))
-    # ask the model first to avoid a linear scan
-    if c._model_ok():
-        try:
-            v = c.model.eval(ti, model_completion=True).as_long()
-            if lo <= v <= hi and bool(SymB(ti == v)):
-                _learn(sym, v)
-                return v
-        except (z3.Z3Exception, AttributeError):
-            pass
-    for v in range(lo, hi + 1):
+    # enumerate the feasible integer values through solver models (not by scanning the range): pick a value v
+    # that some model of the path gives, fork on `ti == v`; on the False branch ask for another one.  The value
+    # picked at a given point of a given decision prefix is cached so that re-executions take the same decisions.
+    for _ in range(hi - lo + 2):
+        key = ("int", tuple(c.prefix[: c.pos]))
+        v = CHOICE_CACHE.get(key)
+        if v is None:
+            if c._model_ok():
+                mv = _model_int(c.model, ti, t, trunc)
+                if mv is not None and lo <= mv <= hi:
+                    v = mv
+            if v is None:
+                r, s_ = seeded_check(c, c.all() + [ti >= lo, ti <= hi])
+                if r == "unsat":
+                    raise Infeasible() if c.pos < len(c.prefix) else PathAbort(
+                        "integer concretisation out of [%d,%d]" % (lo, hi))
+                if r != "sat":
+                    c.notes.append("integer concretisation undecided")
+                    raise PathAbort("integer concretisation undecided")
+                c.set_model(s_.model())
+                v = _model_int(s_.model(), ti, t, trunc)
+                if v is None or not (lo <= v <= hi):
+                    # the model value cannot be read (algebraic numbers inside ToInt): scan the range instead
+                    v = "scan"
+            CHOICE_CACHE[key] = v
+        if v == "scan":
+            for w in range(lo, hi + 1):
+                if bool(SymB(ti == w)):
+                    _learn(sym, w)
+                    return w
+            raise PathAbort("integer concretisation out of [%d,%d]" % (lo, hi))
         if bool(SymB(ti == v)):
             _learn(sym, v)
             return v
     raise PathAbort("integer concretisation out of [%d,%d]" % (lo, hi))
+
+
+def _model_int(m, ti, t, trunc):
+    """integer value of the term under a model; algebraic model values are approximated"""
+    try:
+        return m.eval(ti, model_completion=True).as_long()
+    except (z3.Z3Exception, AttributeError):
+        pass
+    try:
+        fr = model_value(m, t)
+        if isinstance(fr, fractions.Fraction):
+            return int(fr) if trunc else int(math.floor(fr))
+        if isinstance(fr, int):
+            return fr
+    except Exception:
+        return None
+    return None
+
+
+def _integer_valued(x):
+    """syntactic test: integer coefficients over atoms that are ToReal(Int) terms"""
+    if x.d is not None:
+        return False
+    for m, cf in x.n.t.items():
+        if cf.denominator != 1:
+            return False
+        for vid, _e in m:
+            e = _poly._VARS[vid]
+            if not (z3.is_app(e) and e.decl().kind() == z3.Z3_OP_TO_REAL):
+                return False
+    return True
 
 
 def _single_atom(x):
